@@ -873,6 +873,26 @@ fn run_ctor(kind: &str, args: &str) -> String {
             format!("C={}", u8::from(t))
         }
         "default1" => format!("D={}", v1_addr(&v1::Addresses::default())),
+        "bitor" => {
+            // all four BitOr impls of src/v2/model.rs, and From<AddressFamily> for u16
+            let c = [v2::Command::Local, v2::Command::Proxy][it.next().unwrap().parse::<usize>().unwrap()];
+            let f = [
+                v2::AddressFamily::Unspecified,
+                v2::AddressFamily::IPv4,
+                v2::AddressFamily::IPv6,
+                v2::AddressFamily::Unix,
+            ][it.next().unwrap().parse::<usize>().unwrap()];
+            let p = [v2::Protocol::Unspecified, v2::Protocol::Stream, v2::Protocol::Datagram]
+                [it.next().unwrap().parse::<usize>().unwrap()];
+            format!(
+                "VC={} CV={} FP={} PF={} FL={}",
+                v2::Version::Two | c,
+                c | v2::Version::Two,
+                f | p,
+                p | f,
+                f.byte_length().map(|n| n.to_string()).unwrap_or_else(|| "-".to_string())
+            )
+        }
         k => panic!("bad ctor kind {}", k),
     }
 }
